@@ -93,9 +93,9 @@ func (e *c08Env) scenarioContention(rng *rand.Rand, timed bool) {
 	var inside int32
 	var wg sync.WaitGroup
 	type tenure struct {
-		Who        int
-		Path       string
-		From, To   time.Duration
+		Who      int
+		Path     string
+		From, To time.Duration
 	}
 	var mu sync.Mutex
 	var tenures []tenure
